@@ -53,6 +53,7 @@ patched = z3.Function("cli_patch_apply", Py, Py, Py, Py, Py)  # (ops, file, unic
 patch_fails = z3.Function("cli_patch_apply_fails", Py, Py, Py, Py, z3.IntSort())
 loaded = z3.Function("cli_json_load", Py, Py)
 load_fails = z3.Function("cli_json_load_fails", Py, z3.BoolSort())
+load_undecodable = z3.Function("cli_json_load_bytes_are_not_text", Py, z3.BoolSort())
 file_text = z3.Function("cli_file_text", Py, STR)
 text_doc = z3.Function("cli_document_of_text", STR, Py)  # what load_data makes of a string argument
 text_fails = z3.Function("cli_document_of_text_fails", STR, z3.BoolSort())
@@ -80,6 +81,10 @@ def _doc(it, arg):
         if it.branch(load_fails(t)):
             it.trace.append(("effect", "library-raises", "JSONDecodeError"))
             raise PyRaise(ExcVal(json.JSONDecodeError, [S.mk_str("<target document>")]))
+        if it.branch(load_undecodable(t)):
+            # the file is read in binary: bytes that are no UTF-8/16/32 text are "undecodable" too
+            it.trace.append(("effect", "library-raises", "UnicodeDecodeError"))
+            raise PyRaise(ExcVal(UnicodeDecodeError, [S.mk_str("<target document bytes>")]))
         it.assume(S.json_value(loaded(t)))
         return loaded(t)
     v = lib.T(it, arg)
